@@ -151,7 +151,8 @@ def reset_twin(pid, out, tier, seed, arkh, tmp, mode="reset"):
                 # world B executed Stats instead of Shrink: compare the world, not the call
                 va, vb = (0, (), ()) + va[3:], (0, (), ()) + vb[3:]
             if va != vb and ops[k][0] in (18, 19, 20, 22, 23, 24):
-                # known finding "query-relation-on-foreign-component": a query naming a relation target for a
+                # former known finding "query-relation-on-foreign-component" (repaired by 69d7fda; the rule is inert unless the
+                # entry is listed under "known" again): a query naming a relation target for a
                 # component its filter does not require panics or not depending on which archetypes exist
                 qi = (len(qrys) - 1) if ops[k][0] in (18, 19) else (ops[k][1] if len(ops[k]) > 1 else -1)
                 if 0 <= qi < len(qrys) and 0 <= qrys[qi][0] < len(filt) and not qrys[qi][1] <= filt[qrys[qi][0]]:
